@@ -178,6 +178,7 @@ theorem divideStep_decreases (cutoff : Nat) (o : DivideOracle)
     have hbo : Big (c.eraseIdx k) := fun P hP =>
       hb P (hperm.subset (List.mem_cons_of_mem _ hP))
     rw [hget] at h
+    rw [if_neg (by omega : ¬ c[k].length ≤ 1)] at h
     by_cases h1 : c[k].length ≤ cutoff
     · rw [if_pos h1] at h
       cases h
@@ -233,6 +234,18 @@ theorem divideLoop_terminates (cutoff : Nat) (o : DivideOracle)
       obtain ⟨k, hk, hkle⟩ := ih c' hd.2 (by omega)
       refine ⟨k + 1, ?_, by omega⟩
       simp only [hk, Option.map_some]
+
+/-- a childless node with a single input is never resolved: the loop of the code as it stands
+    spins on it forever -/
+theorem divideLoop_single_diverges (cutoff : Nat) (o : DivideOracle) (i : Nat) :
+    ∀ fuel, divideLoop cutoff o fuel [[i]] = none := by
+  intro fuel
+  have hstep : divideStep cutoff o [[i]] = some [[i]] := by
+    have hk : o.pick [[i]] % 1 = 0 := Nat.mod_one _
+    simp [divideStep, hk]
+  induction fuel with
+  | zero => simp [divideLoop]
+  | succ fuel ih => simp [divideLoop, hstep, ih]
 
 /-! ## `build_agglom` -/
 
